@@ -5,6 +5,7 @@ import (
 	"fmt"
 	"strings"
 	"testing"
+	"time"
 
 	"github.com/cybergarage/go-redis/redis"
 	"github.com/cybergarage/go-redis/redis/auth"
@@ -126,6 +127,11 @@ func runC09(t *testing.T, tape *sim.Tape, tier string) *Outcome {
 		cl.S.Logf("calls", "%s", call.Sig)
 	}
 	cl.Sticky = tape.Draw(4, "sticky")
+	// simulated time passes at seed-chosen moments between the other events (timeouts, deadlines and timers of the
+	// code under test fire against this clock)
+	for i := tape.Draw(4, "nticks"); i > 0; i-- {
+		cl.Ticks = append(cl.Ticks, []time.Duration{50 * time.Millisecond, time.Second, 11 * time.Second, 61 * time.Second, 10 * time.Minute, 3 * time.Hour}[tape.Draw(6, "tick")])
+	}
 	if err := cl.startServer(); err != nil {
 		o.violate("harness:start", "Start failed: %v", err)
 		cl.finish()
@@ -173,7 +179,15 @@ func runC09(t *testing.T, tape *sim.Tape, tier string) *Outcome {
 			fp := cl.addClient(name, tlsAddr, [][]byte{[]byte("\x16\x03\x01\x00\x05hello-this-is-not-tls\r\n"), {0x80, 0x00, 0xff, 0x00, 0x00}})
 			faultyPlains = append(faultyPlains, fp)
 		default:
-			cfg := p.ClientConfig(identFor(sc.Cred))
+			ident := identFor(sc.Cred)
+			if sc.Cred == "wrongname" {
+				// half of the wrong-name clients carry a near miss of the rule's name (case, trailing dot, space, NUL, +-1 character, case-folding look-alike)
+				if v := tape.Draw(2*len(p.NearNames), "nearname"); v < len(p.NearNames) {
+					ident = p.NearNames[v]
+					o.stat("near_miss_common_names", 1)
+				}
+			}
+			cfg := p.ClientConfig(ident)
 			cfg.MaxVersion = maxVer()
 			cfg.ClientSessionCache = sessions
 			f := cl.addTLSClient(name, tlsAddr, cfg, tlsScript(sc.Config, "faulty"))
@@ -188,6 +202,19 @@ func runC09(t *testing.T, tape *sim.Tape, tier string) *Outcome {
 		fp.Chunk = tape.Draw(4, "chunkmode")
 		fp.NoDial = true
 	}
+	// one run in sixteen: a crowd of clients that connect to the TLS port and then stay silent (abandoned before the
+	// ClientHello); however many there are, they affect only themselves
+	var silents []*client
+	if tape.Draw(16, "crowd") == 15 {
+		for i := 130 + tape.Draw(120, "crowdsize"); i > 0; i-- {
+			sc := cl.addClient(fmt.Sprintf("silent%d", i), tlsAddr, nil)
+			sc.End = endPlan{Mode: -1}
+			sc.NoDial = true
+			silents = append(silents, sc)
+		}
+		o.stat("runs_with_a_crowd_of_silent_tls_connections", 1)
+		o.stat("silent_tls_connections", len(silents))
+	}
 	var faulty *tlsClient
 	if len(faulties) > 0 {
 		faulty = faulties[0]
@@ -200,6 +227,11 @@ func runC09(t *testing.T, tape *sim.Tape, tier string) *Outcome {
 		}
 		for _, fp := range faultyPlains {
 			if fp.State == clNew {
+				return false
+			}
+		}
+		for _, sc := range silents {
+			if sc.State == clNew {
 				return false
 			}
 		}
@@ -236,9 +268,18 @@ func runC09(t *testing.T, tape *sim.Tape, tier string) *Outcome {
 				acts = append(acts, sim.Action{Key: fp.Name + " dial", Do: fp.dial})
 			}
 		}
+		// the crowd dials one by one (a single action at a time keeps the choice lists short)
+		for _, sc := range silents {
+			if sc.State == clNew {
+				if gate() {
+					acts = append(acts, sim.Action{Key: "crowd dial", Do: sc.dial})
+				}
+				break
+			}
+		}
 		return acts
 	}
-	if !cl.run(6000, nil, extra) && len(o.Viol) == 0 {
+	if !cl.run(6000+12*len(silents), nil, extra) && len(o.Viol) == 0 {
 		o.violate("harness:budget", "step budget exhausted in %s", sc)
 	}
 	where := fmt.Sprintf("%s (faulty client x%d)", sc.String(), repeat)
@@ -345,7 +386,7 @@ func init() {
 	register(&Check{
 		ID: "C09", Bubble: true, Run: runC09,
 		Runs:   map[string]int{"quick": 20 * n, "thorough": 1500 * n},
-		Rule:   fmt.Sprintf("the scenario space {no rule, common-name rule, rule+password} x {no certificate, self-signed, foreign CA, expired, right CA wrong name, right CA wrong common name with the rule's name among the DNS alternative names, right name only on an intermediate, right CA right name, plain-text bytes, garbage; abort after ClientHello; stalled handshake with and without a valid certificate} x {before, between, after well-behaved clients} = %d scenarios is enumerated completely (run index mod %d); per scenario the schedule (accept loop vs. handshake records vs. other clients), record chunking and TLS 1.2/1.3 are sampled; a third of the runs repeat the scenario client 2..12 times, half of those one after the other with a shared TLS session cache (resumed sessions); with rule+password every TLS client first sends a command before AUTH, which must not reach the handler; distinct = distinct (scenario, event-log hash) pairs", n, n),
+		Rule:   fmt.Sprintf("the scenario space {no rule, common-name rule, rule+password} x {no certificate, self-signed, foreign CA, expired, right CA wrong name (half of them a near miss of the rule's name), right CA wrong common name with the rule's name among the DNS alternative names, right name only on an intermediate, right CA right name, plain-text bytes, garbage; abort after ClientHello; stalled handshake with and without a valid certificate} x {before, between, after well-behaved clients} = %d scenarios is enumerated completely (run index mod %d); per scenario the schedule (accept loop vs. handshake records vs. other clients), record chunking and TLS 1.2/1.3 are sampled; one run in sixteen adds a crowd of 130..250 connections that stay silent on the TLS port; a third of the runs repeat the scenario client 2..12 times, half of those one after the other with a shared TLS session cache (resumed sessions); with rule+password every TLS client first sends a command before AUTH, which must not reach the handler; distinct = distinct (scenario, event-log hash) pairs", n, n),
 		Real:   []string{"redis.Server TLS accept loop and handshake, NewTLSConfigFrom, auth.CertificateAuthenticator, auth.AuthManager, crypto/tls (server and clients), crypto/x509 verification against the simulated clock"},
 		Stub:   []string{"network: simulated", "certificates: deterministic Ed25519 PKI valid relative to the bubble epoch", "handler: recording double"},
 		Assume: []string{"a plain client counts as served when it gets any reply to PING (with rule+password it cannot authenticate on the plain port)"},
